@@ -113,10 +113,10 @@ def logistic(vc):
 from pyvc.vc import bounded
 
 
-@bounded("C05", "large_data_native", native_runs=18)
+@bounded("C05", "large_data_native", native_runs=12)
 def large_data_native(vc):
     """value / cost / gradient against the per-point sum of the named log-densities (math.fsum) for data sets of up to
-    several thousand points with uncertainties from 1e-3 to 1e3 (and 1e-100, 1e100: any scale whose square is a double): every quantity must stay finite and exact"""
+    several thousand points with uncertainties from 1e-3 to 1e3 (and 1e-200 .. 1e200: any scale): every quantity must stay finite and exact"""
     import math
     import numpy as np
     from inference.likelihoods import GaussianLikelihood, CauchyLikelihood, LogisticLikelihood
@@ -124,10 +124,17 @@ def large_data_native(vc):
     rng = np.random.default_rng(seed)
     which = vc.choice("likelihood", ["gaussian", "cauchy", "logistic"])
     n = vc.choice("n", [1, 40, 800, 4000])
-    log_scale = vc.choice("log10_uncertainty", [-3, -1.3, 0, 1.3, 3, -100, 100])
+    for log_scale in (-3, -1.3, 0, 1.3, 3, -100, 100, -200, 200):
+        _one_scale(vc, rng, which, n, log_scale)
+
+
+def _one_scale(vc, rng, which, n, log_scale):
+    import math
+    import numpy as np
+    from inference.likelihoods import GaussianLikelihood, CauchyLikelihood, LogisticLikelihood
     s = 10.0 ** (log_scale + rng.uniform(-0.2, 0.2, size=n))
     x = np.linspace(0, 1, n) if n > 1 else np.array([0.5])
-    theta = rng.normal(size=2)
+    theta = rng.normal(size=2) * 10.0 ** log_scale          # (model values of the size of the uncertainties: residuals of a few sigma)
     model = lambda th: th[0] + th[1] * x
     jac = lambda th: np.stack([np.ones(n), x], axis=1)
     y = model(theta) + s * rng.standard_t(3, size=n)
@@ -138,7 +145,7 @@ def large_data_native(vc):
     r = y - model(theta)
     if which == "gaussian":
         terms = [-0.5 * (ri / si) ** 2 - math.log(si) - 0.5 * math.log(2 * math.pi) for ri, si in zip(r, s)]
-        dl = r / s ** 2
+        dl = (r / s) / s
     elif which == "cauchy":
         terms = [-math.log1p((ri / gi) ** 2) - math.log(math.pi * gi) for ri, gi in zip(r, s)]
         dl = 2 * (r / s) / (s * (1 + (r / s) ** 2))
